@@ -32,6 +32,11 @@
 (***************************************************************************)
 EXTENDS FailPoint, Json, IOUtils, TLC, SequencesExt
 
+(* a small audit of FailPoint with every validation run (one name, two versions, texts of up to three *)
+(* forms, every initial state; MCFailPoint explores the larger instances): the compile-then-run model *)
+(* with the macro journal refines the reference semantics, which satisfies the prefix law             *)
+ASSUME \A t \in Texts(3), s \in States : Impl(s, t) = Ref(s, t) /\ PrefixLaw(s, t)
+
 ASSUME TLCSet(11, ndJsonDeserialize(IOEnv.VERIF_TRACE))
 Cases == TLCGet(11)
 Rest == <<0, 1, 0, 0>>
